@@ -216,6 +216,9 @@ class ProgBase(plumpy.Process):
             return Kill() if ret[1] is None else Kill(MessageBuilder.kill(text=ret[1]))
         if kind == 'raise':
             raise ProgError(ret[1])
+        if kind == 'misuse':
+            # the step makes a control call that is not valid in the state it runs in: the library's own EventError ends the process
+            self.resume(ret[1])
         raise AssertionError(kind)
 
     def _next_fn(self, i):
